@@ -12,7 +12,7 @@ LEVEL = "exploration"
 EXPLANATION = (
     "Contract-based (bounded-symbolic): _escape_like - through which every text and file filter value reaches LIKE - is verified "
     "for every value of at most 3 / 5 symbolic characters: decoding the result under the LIKE ... ESCAPE rules gives back the "
-    "value, no character of it acts as a wildcard, and only %, _ and the backslash are escaped ('every character taken literally'). "
+    "value and no character of it acts as a wildcard ('every character taken literally'). "
     "Bounded: filter trees built directly as domain objects (every atom kind, negation, nesting, literal characters including "
     "% _ and backslash; all pairs of representative atoms in one AND group and as two alternatives) are run through "
     "SQLRepo.get_notes_by_query on a real SQLite index built from fixture pages, and the returned ZID sets are compared with an "
